@@ -53,6 +53,17 @@ func (c *tctx) Err() error {
 	return c.Context.Err()
 }
 
+// hidectx hides the standard library's internal context keys: context.AfterFunc / WithCancel cannot recognise the wrapped
+// cancelCtx and fall back to a watcher goroutine on Done(), as they do for any third-party context type.
+type hidectx struct{ context.Context }
+
+func (h hidectx) Value(key any) any {
+	if _, ok := key.(ctxKey); ok {
+		return h.Context.Value(key)
+	}
+	return nil
+}
+
 // parseTrig reads the words after "/": p=1,2 (during the primary's Err) and 3=0,1 (during the Err of position 3)
 func parseTrig(ws []string) map[string][]int {
 	m := map[string][]int{}
@@ -96,11 +107,18 @@ func execCtx(t *trace, script []string) {
 		resCanc  context.CancelFunc
 		calls    atomic.Int64
 		kind     string
+		now      string
 		all      []context.CancelFunc
 	)
 	mk := func(tok string, val string) (context.Context, context.CancelFunc) {
 		if tok == "n" {
 			return nil, nil
+		}
+		if tok == "d" {
+			// already past its deadline: Err() is DeadlineExceeded, not Canceled
+			c, cancel := context.WithDeadline(context.WithValue(context.Background(), ctxKey("k"+val), "v"+val), time.Now().Add(-time.Hour))
+			all = append(all, cancel)
+			return c, cancel
 		}
 		c, cancel := context.WithCancel(context.WithValue(context.Background(), ctxKey("k"+val), "v"+val))
 		all = append(all, cancel)
@@ -114,7 +132,10 @@ func execCtx(t *trace, script []string) {
 	mkT := func(tok string, val string) (*tctx, context.CancelFunc) {
 		var inner context.Context = context.WithValue(context.Background(), ctxKey("k"+val), "v"+val)
 		var cancel context.CancelFunc
-		if tok != "b" {
+		if tok == "d" {
+			inner, cancel = context.WithDeadline(inner, time.Now().Add(-time.Hour))
+			all = append(all, cancel)
+		} else if tok != "b" {
 			inner, cancel = context.WithCancel(inner)
 			all = append(all, cancel)
 			if tok == "1" {
@@ -182,6 +203,7 @@ func execCtx(t *trace, script []string) {
 			armed.Store(true)
 			result = bigbuff.CombineContext(prim, others...)
 			armed.Store(false)
+			now = errBit(result)
 			r = stable(func() string { return errBit(result) })
 		case "mkconflatedt":
 			if len(f) < 2 || kind != "" {
@@ -216,13 +238,61 @@ func execCtx(t *trace, script []string) {
 			result, resCanc = bigbuff.ConflatedContext(inputs...)
 			armed.Store(false)
 			r = stable(func() string { return errBit(result) })
-		case "mkchain":
+		case "chainstorm":
+			// n fresh ChainAfterFunc(ctx, other, f) pairs; for each, `other` then `ctx` are cancelled back to back by one goroutine
+			// (odd iterations: the other way round; every second pair has a third-party `other`), and f must have been called
+			// exactly once when everything has settled: every order of the two hooks is met over the iterations
+			if len(f) != 2 || kind != "" {
+				break
+			}
+			kind = "storm"
+			n := atoi(f[1])
+			var counts []*atomic.Int64
+			for k := 0; k < n; k++ {
+				o, oc := context.WithCancel(context.Background())
+				c, cc := context.WithCancel(context.Background())
+				all = append(all, oc, cc)
+				var other context.Context = o
+				if k%2 == 1 {
+					other = hidectx{o}
+				}
+				cnt := new(atomic.Int64)
+				counts = append(counts, cnt)
+				bigbuff.ChainAfterFunc(c, other, func() { cnt.Add(1) })
+				if k%4 < 2 {
+					oc()
+					cc()
+				} else {
+					cc()
+					oc()
+				}
+			}
+			r = stable(func() string {
+				once, never, twice := 0, 0, 0
+				for _, c := range counts {
+					switch c.Load() {
+					case 0:
+						never++
+					case 1:
+						once++
+					default:
+						twice++
+					}
+				}
+				return fmt.Sprintf("once=%d never=%d twice=%d", once, never, twice)
+			})
+		case "mkchain", "mkchainw":
 			if len(f) != 3 || kind != "" {
 				break
 			}
 			kind = "chain"
 			other, oc := mk(f[1], "o")
 			ctx, cc := mk(f[2], "c")
+			if f[0] == "mkchainw" {
+				// `other` is not a standard-library context: its AfterFunc hook is run by a watcher goroutine, so the gap between
+				// "other is cancelled" and "its hook has fired" is wide (both cancelled "at once" then meets every order)
+				other = hidectx{other}
+			}
 			cancels = []context.CancelFunc{oc, cc}
 			bigbuff.ChainAfterFunc(ctx, other, func() { calls.Add(1) })
 			r = stable(func() string { return fmt.Sprintf("calls=%d", calls.Load()) })
@@ -261,6 +331,7 @@ func execCtx(t *trace, script []string) {
 				cancels = append(cancels, cc)
 			}
 			result = bigbuff.CombineContext(prim, others...)
+			now = errBit(result)
 			r = stable(func() string { return errBit(result) })
 		case "cancelp":
 			if kind != "combine" {
@@ -359,6 +430,12 @@ func execCtx(t *trace, script []string) {
 			})
 		}
 		t.Line(line, r)
+		if now != "" {
+			// what the result said at the very moment the constructor returned (a pre-check that saw a finished input must
+			// hand back an ALREADY finished context, not one that is cancelled a moment later by a callback)
+			t.Line("now "+strings.TrimPrefix(now, "err="), "ok")
+			now = ""
+		}
 	}
 	for _, c := range all {
 		c()
@@ -371,15 +448,17 @@ func execCtx(t *trace, script []string) {
 func genCtx(r *rng.R, tier string, i int) []string {
 	var s []string
 	tok := func() string {
-		switch r.Pick(75, 15, 10) {
+		switch r.Pick(70, 12, 10, 8) {
 		case 0:
 			return "0"
 		case 1:
 			return "1"
+		case 3:
+			return "d"
 		}
 		return "n"
 	}
-	ttok := func() string { return []string{"0", "0", "0", "0", "0", "0", "0", "0", "1", "n", "b", "b"}[r.Intn(12)] }
+	ttok := func() string { return []string{"0", "0", "0", "0", "0", "0", "0", "0", "1", "d", "n", "b", "b"}[r.Intn(13)] }
 	trigs := func(n int, withP bool) string {
 		out := " /"
 		if withP && r.Intn(3) == 0 {
@@ -401,6 +480,9 @@ func genCtx(r *rng.R, tier string, i int) []string {
 			}
 		}
 		return out
+	}
+	if i%20 == 10 {
+		return []string{"chainstorm 150", "final"}
 	}
 	switch i % 5 {
 	case 3:
@@ -447,7 +529,7 @@ func genCtx(r *rng.R, tier string, i int) []string {
 			}
 		}
 	case 0:
-		s = append(s, fmt.Sprintf("mkchain %d %d", r.Pick(85, 15), r.Pick(85, 15)))
+		s = append(s, fmt.Sprintf("%s %d %d", []string{"mkchain", "mkchainw", "mkchainw"}[r.Intn(3)], r.Pick(85, 15), r.Pick(85, 15)))
 		ops := []string{"cancel other", "cancel ctx", "cancel both"}
 		n := 1 + r.Intn(3)
 		for k := 0; k < n; k++ {
@@ -455,7 +537,7 @@ func genCtx(r *rng.R, tier string, i int) []string {
 		}
 	case 1:
 		n := r.Intn(5)
-		line := "mkcombine " + []string{"0", "0", "0", "1", "n"}[r.Intn(5)]
+		line := "mkcombine " + []string{"0", "0", "0", "1", "n", "d"}[r.Intn(6)]
 		for k := 0; k < n; k++ {
 			line += " " + tok()
 		}
@@ -475,7 +557,7 @@ func genCtx(r *rng.R, tier string, i int) []string {
 		n := 1 + r.Intn(4)
 		line := "mkconflated"
 		for k := 0; k < n; k++ {
-			line += " " + []string{"0", "0", "0", "1"}[r.Intn(4)]
+			line += " " + []string{"0", "0", "0", "1", "d"}[r.Intn(5)]
 		}
 		s = append(s, line, "value")
 		order := make([]int, n)
